@@ -67,6 +67,7 @@ def run(ctx, drv):
     kinds = ["real", "int", "binary", "perm", "subset"]
     jobs = []          # (description, thunk-a, thunk-b, kind-of-check)
     tmp = tempfile.mkdtemp(prefix="c13_", dir=os.environ.get("TMPDIR", "/tmp"))
+    open(os.path.join(tmp, f".owner{os.getpid()}"), "w").close()
     nbase = 16 if ctx.quick() else 120
     cfgs = []
     for i in range(nbase):
@@ -103,6 +104,13 @@ def run(ctx, drv):
         for c_ in (first, second):
             c_["explicit"], c_["size"], c_["nobjs"], c_["dirs"], c_["ncon"], c_["budget"] = False, 12, 2, [False, False], 0, 12 * 720
         hist.append((first, second))
+    # the same with one objective: the archive then has a single member, no size-ratio restart can intervene, and the only restart
+    # is the one forced after max_window_size generations *of this run* (600 + 600 generations: none in a fresh interpreter)
+    first = gen_cfg(rng, "EpsNSGAII", "real")
+    second = gen_cfg(rng, "EpsNSGAII", "real")
+    for c_ in (first, second):
+        c_["explicit"], c_["size"], c_["nobjs"], c_["dirs"], c_["ncon"], c_["budget"] = False, 12, 1, [False], 0, 12 * 600
+    hist.append((first, second))
     results = []
     with ThreadPoolExecutor(12) as ex:
         futs = []
@@ -122,7 +130,10 @@ def run(ctx, drv):
                 js = (k + ci) % 3 == 0           # the human-readable JSON state format as well as the binary one
                 sv = dict(c, mode="save", budgets=[s * k, s * 3], file=f, gauss_pending=(k + ci) % 2 == 0, json=js)
                 rs = dict(c, mode="resume", budgets=[s * k, s * 3], file=f, scramble=7 + k, json=js)
-                futs.append(("save-resume", c, k, ex.submit(lambda sv=sv, rs=rs: (sub(sv, 0), sub(rs, 0)))))
+                # (iii-c) writing a checkpoint is an observation: the run that was checkpointed continues exactly like the same
+                # sequence of run calls without the save_state call in between
+                pl = dict(c, mode="run", budgets=[s * k, s * 3], gauss_pending=(k + ci) % 2 == 0)
+                futs.append(("save-resume", c, k, ex.submit(lambda sv=sv, rs=rs, pl=pl: (sub(sv, 0), sub(rs, 0), sub(pl, 0)))))
             # (iii-b) algorithms whose state contains lazily maintained structures (adaptive grid bounds / densities, which only
             # go stale once the archive has been full for a while): late boundaries as well
             if c["name"] in ("PESA2", "PAES"):
@@ -175,7 +186,13 @@ def run(ctx, drv):
                          {"check": kind, "algorithm": c["name"], "kind": c["kind"], "elements": c["elements"], "hashseeds": extra,
                           "nfe": base.get("nfe")} if len(ctx.samples) < 2 else None)
             else:
-                a, b = r
+                a, b = r[0], r[1]
+                if len(r) == 3:
+                    a_ = {k_: v_ for k_, v_ in a.items() if k_ != "state"}
+                    d3 = first_diff(a_, r[2])
+                    if d3 and not _benign(d3):
+                        ctx.fail("checkpointing-changes-the-run", dict(desc, boundary=extra), d3, "the same results as the same run calls without save_state", "io.save_state")
+                    ctx.count("checkpointed-vs-plain-runs")
                 if kind == "same-seed-in-process":
                     # the same seeded run in this long-lived process (which ran other problems before) and in a fresh interpreter
                     fr = fresh.get(json.dumps({k2: v2 for k2, v2 in c.items()}, sort_keys=True))
